@@ -3,14 +3,16 @@ from props import only  # noqa: F401
 _ERR = r"(in:(\d+) ex:\2|ex:(\d+) in:\3|ex:(\d+) ex:\4|un ex:0|ex:4294967295 un|ex:4294967295 \S+|\S+ ex:0)"
 
 CFG = {
-    "gen_profiles": ["C16"],
-    "cases": {"quick": 500, "thorough": 6000},
+    "gen_profiles": ["C16", "C16T"],
+    "cases": {"quick": 800, "thorough": 9000},
     # totality is about results and panics, not about representation
     "compare": "set",
     "rule": ("cases = corpus + seeded cases (harness gen --profile C16): a value from a short history (empty, arrays, bitsets, full chunk, "
              "u32::MAX chunk), then 6-14 entries of the property's argument table (empty / inverted / equal-excluded / unbounded / "
              "exclusive bounds, counts >> len, indices past the end, 0, u32::MAX) through every 32-bit method that has an op, plus Debug "
-             "formatting; executed in both build profiles (overflow checks on and off); non-trivial = some dump shows a bitset chunk "
+             "formatting (profile C16); profile C16T: the same argument table (u64 bounds, 0, u32::MAX, u64::MAX, targets before the front / beyond "
+             "the back / in absent partitions / in the partition the other end already opened) through the RoaringTreemap methods and through "
+             "advance_to / advance_back_to / nth / nth_back / next / next_back / size_hint / fold of all four iterator types; executed in both build profiles (overflow checks on and off); non-trivial = some dump shows a bitset chunk "
              "or >= 2 chunks; distinct by SHA-1 of the ops"),
     "targets": {
         "insert_range: empty/inverted -> 0": r"^insert_range b0 %s => 0$" % _ERR,
@@ -47,6 +49,7 @@ CFG = {
         "the Safe_* predicates talk about the MODEL's intermediate values; that the model's expressions are the Rust expressions is the hand-written mirroring checked by the correspondence runs (both overflow-check settings)",
         "proved for well-formed values (shared Bitmap.WF) and arguments of the right integer type: every mutator is total in both build configurations and keeps well-formedness (C16_mutators_total, C16_history_total, from C01); range()/into_range() panic exactly on the two documented inputs (C16_range_panics, from C03); from_lsb0_bytes never panics for offset + 8*len <= 2^32 and, for a multiple-of-8 offset, panics exactly past 2^32 (C16_lsb0_panics, from C17); select/min/max return None exactly when there is no such element (C16_select_total, C16_min_max_total); Debug is total and equals the SPEC string (C16_debug_total, C16_debug_spec)",
         "C16_ranges, C16_convertRange_ok/_error/_nonempty are proved without assumptions beyond bounds that fit u32 (convert_range_to_inclusive uses checked_add/checked_sub resp. explicit Excluded(MAX)/Excluded(0) arms: the guards are explicit in the model)",
+        'model-fidelity audit (notes/fidelity-codecs.md): Debug formatting printed the abstraction `elems` in the list branch; the Rust prints self.iter().collect::<Vec<_>>(). The driver (`debug`, `tdebug`) now executes Bitmap.debugFmtM / Treemap.debugFmtM, which drive the mirrored bitmap::Iter / treemap::Iter with next() until None, proved equal to debugFmt for well-formed values (Fidelity.debugFmtM_eq from C03_init + Iter.next_spec; Fidelity.tdebugFmtM_eq from C12_init + C12_step) and the theorems are restated for them: C16_debug_mirror_eq / _total / _spec, and (new, the treemap formatter had no theorem) C16_tdebug_mirror_eq, C16_tdebug_spec, C16_tdebug_total. As built, the driver does not evaluate the Safe_* predicates at run time (DESIGN §8 says it would); in the codec area the only observable consequence was the empty-container case described under C05',
     ],
     "level_text": "Theorems (Lean 4, kernel-checked) about the model: for every bound pair that convert_range_to_inclusive rejects, insert_range/remove_range/range_cardinality return 0, contains_range returns true and the bitmap is unchanged; the conversion fails exactly on the empty intervals (never on a non-empty one); Debug formatting is total; every arithmetic side condition of the stores, containers, 32-bit inherent API, serialization writer, statistics and treemap len/rank/select (decidable Safe_* predicates with file:line references) follows from well-formedness (C16_safe_*). Absence of arithmetic panics is additionally tied to the Rust source by running the property's argument table on generated values in two build profiles (overflow checks on: a panic is a difference; off: a wrapped value is a difference). Unbounded quantifier = theorem for the range part; the rest = sampled.",
     "level_note": "Trusted: Lean kernel; the hand-written model mirrors the code (checked by correspondence on generated values only); the per-site arithmetic side conditions (Safe_* predicates, Safe.lean) are theorems for the stores, containers, the 32-bit inherent API, serialization writer, statistics and the treemap's len/rank/select (see coverage.proof_gaps for what is left to the differential runs with overflow checks enabled). See evidence coverage.proof_gaps.",
